@@ -22,12 +22,14 @@ TInit == /\ tid \in 1..Len(Traces) /\ l = 1
 
 TStep == /\ l >= 1 /\ l <= Len(Traces[tid])
          /\ LET rec == Traces[tid][l]  e == rec.ev IN
-            IF Enabled(objs, e) /\ SameHeap(Apply(objs, e), rec.post)
+            IF Enabled(objs, e) /\ SameHeap(Apply(objs, e), rec.post) /\ rec.ret = Ret(objs, e)
             THEN /\ objs' = Apply(objs, e) /\ l' = l + 1
                  /\ (l = Len(Traces[tid]) => PrintT(ToJson([accept |-> tid])))
             ELSE /\ PrintT(ToJson([reject |-> tid, l |-> l, ev |-> e, enabled |-> Enabled(objs, e),
-                                   slot |-> IF Enabled(objs, e) THEN FirstDiff(Apply(objs, e), rec.post) ELSE 0,
-                                   expected |-> IF Enabled(objs, e) THEN Apply(objs, e) ELSE objs]))
+                                   slot |-> IF Enabled(objs, e) /\ ~SameHeap(Apply(objs, e), rec.post)
+                                            THEN FirstDiff(Apply(objs, e), rec.post) ELSE 0,
+                                   expected |-> IF Enabled(objs, e) THEN Apply(objs, e) ELSE objs,
+                                   ret |-> IF Enabled(objs, e) THEN Ret(objs, e) ELSE <<>>]))
                  /\ objs' = objs /\ l' = 0
          /\ UNCHANGED <<tid, hist>>
 TSpec == TInit /\ [][TStep]_<<objs, hist, tid, l>>
